@@ -278,8 +278,17 @@ func (env *Zlisp) MakeSymbol(name string) *SexpSymbol {
 }
 
 func (env *Zlisp) GenSymbol(prefix string) *SexpSymbol {
-	symname := prefix + strconv.Itoa(env.nextsymbol)
-	return env.MakeSymbol(symname)
+	// the generated name must not belong to any existing symbol:
+	// scripts can intern names shaped like ours (str2sym), and
+	// interpreters made by Clone()/Duplicate() share symtable
+	// but each have their own nextsymbol.
+	for {
+		symname := prefix + strconv.Itoa(env.nextsymbol)
+		if _, taken := env.symtable[symname]; !taken {
+			return env.MakeSymbol(symname)
+		}
+		env.nextsymbol++
+	}
 }
 
 func (env *Zlisp) CurrentFunctionSize() int {
